@@ -131,7 +131,7 @@ def c15_tree_case(spec, res, batch, tag):
             top.list()
         lst = parse_list_output(buf.getvalue())
         listed = "ok " + enc_nats(j for _, j in lst) if None not in lst else "unparsed " + repr(buf.getvalue())
-        idmap = {o.jid: int(o._sched_id) for o in objs[1:] if o._sched_id is not None and any(o.jid == j for _, j in lst)}
+        idmap = {o.jid: int(sched_id(o)) for o in objs[1:] if sched_id(o) is not None and any(o.jid == j for _, j in lst)}
         ids_obs = "ok " + ",".join("%d:%d" % kv for kv in sorted(idmap.items()))
     except Exception as e:
         lst = None
@@ -1474,12 +1474,12 @@ def c20_case(spec, res, batch, tag, dot_texts):
     enc = encode(objs)
     r = try_call(top.dot_format)
     if r[0] == "ok":
-        width = min([len(o._sched_id) for o in objs[1:] if o._sched_id] or [1])
+        width = min([len(sched_id(o)) for o in objs[1:] if sched_id(o)] or [1])
         obs = "ok " + r[1].encode().hex()
     else:
         width = 1
         obs = "err " + ("cycle" if r[1] == "Exception" else r[1])
-    labels = ",".join(objs[j]._get_text_label().encode().hex() if hasattr(objs[j], "_get_text_label") else "" for j in range(spec["n"]))
+    labels = ",".join(text_label_of(objs[j]).encode().hex() if hasattr(objs[j], "text_label") else "" for j in range(spec["n"]))
     batch.add("dotitems", case, "dot %s s=0 w=%d labels=%s" % (enc, width, labels), obs)
     res.hist("c20_scheds", len(scheds))
     res.hist("c20_result", r[0] if r[0] == "ok" else r[1])
@@ -1504,7 +1504,7 @@ def c20_case(spec, res, batch, tag, dot_texts):
     # the model's own DOT lexer + parser (Model/DotLex, Model/DotParse: the ones `render_parses` is about) applied
     # to the real text must accept it and see the same graph as the independent Python parser
     batch.add("dotparse", case, "parse text=%s" % text.encode().hex(), graph_canon(g), canon=lean_parse_canon)
-    ids = {j: objs[j]._sched_id for j in range(1, spec["n"]) if objs[j]._sched_id}
+    ids = {j: sched_id(objs[j]) for j in range(1, spec["n"]) if sched_id(objs[j])}
     # nodes <-> atomic jobs
     node_ids = [nid for nid, _, _ in g.nodes]
     want_nodes = sorted(ids[j] for j in atomic)
